@@ -10,6 +10,7 @@ Faults (``faults``: {response path tuple: kind}) are applied here for the
 ``null`` kind (a None at that response position, possibly a non-null one) and
 in the resolver body for ``err`` / ``errx`` / ``boom``.
 """
+import collections.abc
 import zlib
 
 from .workload import ENUM_VALUES, named
@@ -63,6 +64,44 @@ class ExcObj(Exception):
         return "ExcObj(%s,%s)" % (self.__typename__, self.__id__)
 
 
+MAP_PATH = ("<served from the mapping itself>",)
+
+
+class MapObj(collections.abc.Mapping):
+    """Mapping-shaped object value that is NOT a dict (a row proxy, a
+    ChainMap-like view).  The library's default resolver serves such parents
+    by key lookup and hands back what it finds, without calling it: fields
+    left to the default resolver are computed here, on access, with neither
+    response path nor arguments (the workload only leaves argument-less
+    fields to it)."""
+
+    def __init__(self, world, typename, oid, keys):
+        self.__typename__ = typename
+        self.__id__ = oid
+        self._world = world
+        self._keys = tuple(keys)
+
+    def __getitem__(self, key):
+        if key == "__typename__":
+            return self.__typename__
+        if key == "__id__":
+            return self.__id__
+        if key in self._keys:
+            return self._world.field_value(
+                {"__id__": self.__id__}, self.__typename__, key, {},
+                MAP_PATH, None)
+        raise KeyError(key)
+
+    def __iter__(self):
+        return iter(("__typename__", "__id__") + self._keys)
+
+    def __len__(self):
+        return 2 + len(self._keys)
+
+    def __repr__(self):
+        return "MapObj(%s,%s)" % (self.__typename__, self.__id__)
+
+
 class FalsyObj(Obj):
     """An application object that is an empty collection of its own (falsy):
     still an object, not a null."""
@@ -84,7 +123,7 @@ def obj_id(o):
         return "root"
     if isinstance(o, dict):
         return o["__id__"]
-    if isinstance(o, (Obj, ExcObj)):
+    if isinstance(o, (Obj, ExcObj, MapObj)):
         return o.__id__
     # subscription events: plain python values act as their own id
     return repr(o)
@@ -141,6 +180,10 @@ class World:
         spec = self.spec
         if spec.objrepr == "dict":
             return {"__typename__": tname, "__id__": oid}
+        if spec.objrepr == "map":
+            return MapObj(self, tname, oid, [
+                f for f in spec.objects[tname]["fields"]
+                if spec.behaviours.get((tname, f)) == "default"])
         fields = {}
         if self.make_default is not None:
             for f in spec.objects[tname]["fields"]:
@@ -173,7 +216,7 @@ class World:
                 # two response positions, one Python identity
                 j = 1 + (h >> 13) % (n - 1)
                 src = (h >> 17) % j
-                if isinstance(items[src], (Obj, ExcObj, dict)) and \
+                if isinstance(items[src], (Obj, ExcObj, MapObj, dict)) and \
                         self.faults.get(path + (j,)) != "null":
                     items[j] = items[src]
             return items
